@@ -58,11 +58,12 @@ def detail(built, crashed=None):
 def signature(outcome, det):
     """A short stable signature of a crash: used to group findings (file paths, ids and numbers removed)."""
     s = det
+    s = re.sub(r"0x[0-9a-fA-F]+", "PTR", s)
     s = re.sub(r"/[\w./-]+", "<path>", s)
     s = re.sub(r"\b(m[0-9a-f]{14}|[ctg]\w*_[0-9a-f]{8,})\b", "<id>", s)
     s = re.sub(r"\d+", "N", s)
     s = re.sub(r"\s+", " ", s).strip()
-    return "%s:%s" % (outcome, s[:160])
+    return "%s:%s" % (outcome, s[:120])
 
 
 def _run_fast_shard(ctx, tag, pkgs, profile, pkg_timeout, chunk):
